@@ -251,13 +251,14 @@ synchronised; `none` no such pair at all. -/
 inductive Verdict | racy | sync | none
   deriving DecidableEq, Repr
 
-def verdict (t : Table) (cs : List Ctx) (loc f g : Nat) : Verdict :=
-  let es := effs t cs
+def verdictOn (es : List (Ctx × Access)) (loc f g : Nat) : Verdict :=
   let ps := es.filter fun p => p.2.loc == loc && p.2.fn == f
   let qs := es.filter fun q => q.2.loc == loc && q.2.fn == g
   let cand := ps.flatMap fun p => (qs.filter fun q => concCtx p.1 q.1 && (p.2.write || q.2.write)).map fun q => (p, q)
   if cand.isEmpty then .none
   else if cand.any fun pq => conflict pq.1.2 (effLocks pq.1.2 pq.1.1.locks) pq.2.2 (effLocks pq.2.2 pq.2.1.locks) then .racy
   else .sync
+
+def verdict (t : Table) (cs : List Ctx) (loc f g : Nat) : Verdict := verdictOn (effs t cs) loc f g
 
 end ZChain.LockSet
